@@ -68,7 +68,7 @@ func seedCommands(state int) [][]string {
 }
 
 // fingerprintKeys are the keys STATS is asked about where KEYS/SCAN are refused.
-var fingerprintKeys = []string{"fleet", "depot", "tmp", "tmp2", "tmp3", "bulk", "notes", "zone"}
+var fingerprintKeys = []string{"fleet", "depot", "tmp", "tmp2", "tmp3", "bulk", "notes", "zone", "mi:0"}
 
 // blackhole is a TCP listener owned by the harness that never speaks RESP: it
 // either closes accepted connections at once or holds them silently. A follower
